@@ -40,6 +40,7 @@ import GraphiqModel.Proofs.MetricsHistIso
 import GraphiqModel.Proofs.MetricsHistEdits
 import GraphiqModel.Proofs.MetricsHistInsert
 import GraphiqModel.Proofs.MetricsHistFuse
+import GraphiqModel.Proofs.MetricsHistEmit
 import GraphiqModel.Properties.C12
 namespace Graphiq.C18
 open Graphiq Graphiq.Dag Graphiq.Metrics
@@ -75,6 +76,18 @@ theorem emitter_count_eq_inputs {c : Dag} (h : DagInv c) :
     Metrics.emitterCount c = (c.nodeIds.filter (fun n => match n with | .inp r => r.ty = .e | _ => false)).length := by
   obtain ⟨P, g⟩ := h
   exact (g.inv.input_count .e).symm
+
+/-- **`CircuitEmitterCount` = the op-list specification** for every circuit built by `add`: the number of emitter registers of
+    `CircuitDAG(ne, np, nc)` after adding the list, an emitter register being created exactly when an operation names the next free
+    index (continuous numbering, registers of an operation visited in the sorted order of the code) -/
+theorem emitter_count_eq_spec (ne np nc : Nat) (seq : List Op) (hwf : ∀ op ∈ seq, OpWF op) (hok : (build ne np nc seq).2 = none) :
+    Metrics.emitterCount (build ne np nc seq).1 = Spec.emitterCount ne seq :=
+  emitterCount_build ne np nc seq hwf hok
+
+/-- `CircuitDAG(ne, np, nc)` has exactly `ne`, `np`, `nc` registers of the three types -/
+theorem fresh_circuit_register_counts (ne np nc : Nat) :
+    (Dag.init ne np nc).regs .e = ne ∧ (Dag.init ne np nc).regs .p = np ∧ (Dag.init ne np nc).regs .c = nc :=
+  init_regs ne np nc
 
 /-- hypotheses on an operation list: well-formed operations as graphiq constructs them (labels — including user labels such as
     the solver's "Fixed" — outside the reserved names, i.e. class names and register-type descriptions; at most two quantum
@@ -703,6 +716,17 @@ theorem depth_after_history_with_user_labels (ne np nc : Nat) (es : List C12.Edi
   refine ⟨P, g, sched_exists g, fun L hS => ?_⟩
   obtain ⟨h1, _, h3, _⟩ := depth_metrics_with_user_labels g hk hS
   exact ⟨h1, h3⟩
+
+/-- **metrics after a history of node-addressed edits, wires computed by the list edits**: for a history of `add` / `insert_at` /
+    `remove_op` / `replace_op` on existing registers (`C12.NodeHistOK`), the wires of the reached circuit are `C12.wiresRun` — a
+    function of the wires before, `_node_id` and the edits (splice / erase / keep) — and every metric equals its specification on
+    every schedule of those wires -/
+theorem metrics_after_node_history {c : Dag} {P : Reg → List NodeId} (g : Good c P) (es : List C12.Edit)
+    (hok : C12.NodeHistOK c es) (hpl : AllPlain (C12.run c es)) :
+    Good (C12.run c es) (C12.wiresRun P c.nodeId es).1 ∧
+    ∀ L, Sched (C12.run c es) (C12.wiresRun P c.nodeId es).1 L → MetricsMeetSpec (C12.run c es) (L.map (·.2)) := by
+  obtain ⟨g', _⟩ := C12.node_history_wires es g hok
+  exact ⟨g', fun L hS => metrics_eq_spec_on_any_schedule g' hpl hS⟩
 
 /-- … in closed form: the metrics of the reached circuit are the specifications evaluated on `wireOpList` of it, a computable
     function of the wires `reg_gate_history` returns and of the node operations -/
